@@ -115,10 +115,11 @@ pub struct HolderCommitment { pub id: Txid }
 impl HolderCommitment { #[verifier::external_body] pub fn trust(&self) -> (r: Trusted) ensures r.id == self.id { unimplemented!() } }
 pub struct FundingScope { pub current_holder_commitment_tx: HolderCommitment, pub prev_holder_commitment_tx: Option<HolderCommitment> }
 pub enum Which { CurrentHolder, PrevHolder, Neither }
-macro_rules! which_holder_htlcs { (CURRENT_WITH_SOURCES) => { Which::CurrentHolder }; (PREV_WITH_SOURCES) => { Which::PrevHolder }; }
+// reads the HTLC-set argument of the macro invocation, with or without a trailing `.unwrap()`
+macro_rules! which_holder_htlcs { (holder_commitment_htlcs!($u:ident, CURRENT_WITH_SOURCES) $($rest:tt)*) => { Which::CurrentHolder }; (holder_commitment_htlcs!($u:ident, PREV_WITH_SOURCES) $($rest:tt)*) => { Which::PrevHolder }; }
 //@extract lightning/src/chain/channelmonitor.rs :: impl ChannelMonitor :: fn get_onchain_failed_outbound_htlcs
 //@slice R15
-    } else if $c2:cond { walk_htlcs!(holder_commitment_htlcs!(us, $w1:ident)); } else if let Some(prev_commitment_tx) = &funding.prev_holder_commitment_tx { if $c3:cond { walk_htlcs!(holder_commitment_htlcs!(us, $w2:ident).unwrap()); } else {
+    } else if $c2:cond { walk_htlcs!($w1:seq); } else if let Some(prev_commitment_tx) = &funding.prev_holder_commitment_tx { if $c3:cond { walk_htlcs!($w2:seq); } else {
 //@with
     fn holder_commitment_whose_htlcs_stand_for_the_confirmed_transaction(confirmed_txid: Txid, funding: &FundingScope) -> Which {
         if $c2 { which_holder_htlcs!($w1) } else if let Some(prev_commitment_tx) = &funding.prev_holder_commitment_tx { if $c3 { which_holder_htlcs!($w2) } else { Which::Neither } } else { Which::Neither } }
@@ -130,7 +131,7 @@ macro_rules! which_holder_htlcs { (CURRENT_WITH_SOURCES) => { Which::CurrentHold
 //@mutant previous_holder_commitment_walked_with_the_current_htlcs
     walk_htlcs!(holder_commitment_htlcs!(us, PREV_WITH_SOURCES).unwrap());
 //@with
-    walk_htlcs!(holder_commitment_htlcs!(us, CURRENT_WITH_SOURCES).unwrap());
+    walk_htlcs!(holder_commitment_htlcs!(us, CURRENT_WITH_SOURCES));
 //@end
 
 // ---- check_spend_holder_transaction: which of our commitments a confirmed transaction is, and whose HTLCs are compared with it ----
@@ -166,7 +167,7 @@ pub assume_specification<T, F: FnOnce() -> Option<T>>[Option::<T>::or_else](o: O
 //@end
 //@extract lightning/src/chain/channelmonitor.rs :: impl ChannelMonitorImpl :: fn check_spend_holder_transaction
 //@slice R15
-    if current { fail_unbroadcast_htlcs!( self, current_msg, commitment_txid, commitment_tx, height, block_hash, holder_commitment_htlcs!(self, $w1:ident), logger ); } else { fail_unbroadcast_htlcs!( self, current_msg, commitment_txid, commitment_tx, height, block_hash, holder_commitment_htlcs!(self, $w2:ident).unwrap(), logger ); }
+    if current { fail_unbroadcast_htlcs!( self, current_msg, commitment_txid, commitment_tx, height, block_hash, $w1:seq, logger ); } else { fail_unbroadcast_htlcs!( self, current_msg, commitment_txid, commitment_tx, height, block_hash, $w2:seq, logger ); }
 //@with
     fn htlcs_compared_with_our_confirmed_commitment(current: bool) -> Which { if current { which_holder_htlcs!($w1) } else { which_holder_htlcs!($w2) } }
 //@ret r
